@@ -295,7 +295,7 @@ class ProgGen:
             if k == "big":
                 return 2 ** 60 + r.randint(0, 9)
             if k == "str":
-                return r.choice(["", "x", "ünï ✓", "a\nb", " padded "])
+                return r.choice(["", "x", "ünï ✓", "a\nb", " padded ", "<b>&amp; \"q\" </TD>"])
             if k == "bool":
                 return r.random() < 0.5
             if k == "none":
@@ -306,7 +306,7 @@ class ProgGen:
                 return [j(d - 1) for _ in range(r.randint(0, 3))]
             return {r.choice(["a", "b", "ключ"]): j(d - 1) for _ in range(r.randint(0, 2))}
 
-        return {r.choice(["name", "meta.key", "k", " key ", "k\n"]): j(2) for _ in range(r.randint(1, 2))}
+        return {r.choice(["name", "meta.key", "k", " key ", "k\n", "k<&>"]): j(2) for _ in range(r.randint(1, 2))}
 
     def stmt_simple_op(self, rg: Region):
         r = self.r
@@ -871,7 +871,7 @@ class ProgGen:
         declare = (r.random() < 0.4 and not poly) if declare is None else declare
         if name != "main" and r.random() < 0.3:
             # names are free text: non-ASCII, empty, with spaces, or the same as another function's
-            name = r.choice(["ƒ-é ψ", "", "dup", "dup", "a b", "x.y::z", name + "✓", " f\n"])
+            name = r.choice(["ƒ-é ψ", "", "dup", "dup", "a b", "x.y::z", name + "✓", " f\n", "f<T>&g"])
             self.feat("odd-function-name")
         f = {"name": name, "id": fid, "ins": ins, "tparams": tparams, "outs": None, "parent": parent,
              "params": [p["id"] for p in params]}
